@@ -280,10 +280,22 @@ func (b *bgvCtx) program(r *eng.Rand, pi int) {
 	randScale := func() uint64 {
 		return eng.Pick(r, 1, 1+r.U64()%(t-1), 1+r.U64()%(t-1), t-1, 2)
 	}
+	// the scale of a transformation is given either with the plaintext modulus attached (params.NewScale) or as a
+	// bare value (rlwe.NewScale(k), what the bgv evaluator itself builds for plaintext operands): the product with
+	// the ciphertext scale is taken modulo t either way
+	bareScale := r.N(3) == 0
+	ltScale := func(i int) rlwe.Scale { return rlwe.Scale{} }
 	ctScale := randScale()
 	ltScales := make([]uint64, len(p.lts))
 	for i := range ltScales {
 		ltScales[i] = randScale()
+	}
+	ltScale = func(i int) rlwe.Scale {
+		if bareScale {
+			c.Count("transformations_with_bare_scale", 1)
+			return rlwe.NewScale(ltScales[i])
+		}
+		return params.NewScale(ltScales[i])
 	}
 
 	// allocate (to learn N1) with the sampled levels, check room, fall back to the top level
@@ -295,7 +307,7 @@ func (b *bgvCtx) program(r *eng.Rand, pi int) {
 				DiagonalsIndexList:        append([]int(nil), lt.lib...),
 				LevelQ:                    lt.levelQ,
 				LevelP:                    p.levelP,
-				Scale:                     params.NewScale(ltScales[i]),
+				Scale:                     ltScale(i),
 				LogDimensions:             params.LogMaxDimensions(),
 				LogBabyStepGiantStepRatio: lt.ratio,
 			}
